@@ -1,0 +1,17 @@
+//go:build verif
+
+package values
+
+// Contracts checked by /verif (govc). Comment-only file: it adds no code.
+
+//@ func (*Options).MergeValues
+//@   props C04
+//@   requires opts != nil && GvalFamily == 0
+//@   ensures [dest-is-result] err == nil && GvalFamily >= 3 ==> result == GvalDest
+//@   ensures [result-non-nil] err == nil ==> result != nil
+//@   loop 1 invariant GvalFamily <= 1 && base != nil
+//@   loop 2 invariant GvalFamily <= 2 && base != nil
+//@   loop 3 invariant GvalFamily <= 3 && base != nil && (GvalFamily == 3 ==> GvalDest == base)
+//@   loop 4 invariant GvalFamily <= 4 && base != nil && (GvalFamily >= 3 ==> GvalDest == base)
+//@   loop 5 invariant GvalFamily <= 5 && base != nil && (GvalFamily >= 3 ==> GvalDest == base)
+//@   loop 6 invariant GvalFamily <= 6 && base != nil && (GvalFamily >= 3 ==> GvalDest == base)
